@@ -105,11 +105,11 @@ def nondyadic_cases(db, cid, e0, dt, syden, stepf, have):
     if "rise" in have:
         unit = stepf / syden          # rain depth per lattice unit of lift
         fx2 = lambda z: int(round(z / stepf * 100))       # coarser lattice: products must stay below 2^31
-        owners = [{"start": idx(a), "samples": [[0, fx2(wl[a])], [int(round(depth / unit * 100)), fx2(wl[z])]]}
+        owners = [{"start": idx(a), "samples": [[0, fx2(wl[a])], [int(round(depth / unit * 10)), fx2(wl[z])]]}
                   for a, z, depth in t["rises"]]
         prov.append({"id": "%s rise" % cid, "kind": "rise", "D": 100, "K": 10, "tol": 5, "owners": owners,
                      "members": [idx(e) for e in t["rise_members"]],
-                     "rows": [{"start": idx(e), "n": n, "v": int(round(v / unit * 100 * 10))} for e, n, v in t["rise_rows"]],
+                     "rows": [{"start": idx(e), "n": n, "v": int(round(v / unit * 10 * 10))} for e, n, v in t["rise_rows"]],
                      "grid": dict(grid, minp=fx2(min(zs)), maxp=fx2(max(zs)))})
     return prov
 
